@@ -22,7 +22,7 @@
     output file compared byte for byte. *)
 From Coq Require Import List Bool NArith String.
 From Coq Require Import Permutation.
-From PyxisModel Require Import Base Grammar SemTypes Registry Sem ScopeLemmas Confluence Locality.
+From PyxisModel Require Import Base Grammar SemTypes Registry Sem ScopeLemmas Confluence Locality WholeBuild Monotone OrderIndep Unrelated UnrelatedStates.
 Import ListNotations.
 
 Theorem C19_lookup_local : forall R R' scope name,
@@ -53,3 +53,56 @@ Proof.
   exact (accepted_builds_agree K V eqb Hspec att1 att2 items1 items2 Hsub Hloc M1 o1 o2 fuel1 fuel2 R0 T1 T2 P1 P2 H1 H2).
 Qed.
 Print Assumptions C19_locality_abstract.
+
+(** ** The concrete theorem for the model (Frame.v, Unrelated.v, UnrelatedStates.v).  Two inputs, the
+    second with additional modules; both collision free and clean; [no_capture] (decidable): the
+    additional modules do not replace a module of the first input, and no lookup candidate of the
+    first input (scope path, or scope module / root joined with a name its definitions mention) is a
+    key of the second registry only.  If both are accepted -- under ANY two schedules -- every item
+    of the first input has the same resolved value in both final registries, and every module of the
+    first input has the same resolved extern values. *)
+Theorem C19_unrelated_modules : forall ptr mods1 extra st1 st2 o1 o2 t1 t2,
+  input_state ptr mods1 = Ok st1 -> input_state ptr (mods1 ++ extra) = Ok st2 ->
+  collision_free (st_reg st1) -> collision_free (st_reg st2) ->
+  clean_stateb st1 = true -> clean_stateb st2 = true ->
+  no_capture st1 st2 extra = true ->
+  (forall l, Permutation (o1 l) l) -> (forall l, Permutation (o2 l) l) ->
+  pyxis_resolve o1 ptr mods1 = BOk t1 -> pyxis_resolve o2 ptr (mods1 ++ extra) = BOk t2 ->
+  forall p, user (st_reg st1) p -> reg_get (st_reg t1) p = reg_get (st_reg t2) p.
+Proof. exact pyxis_resolve_unrelated. Qed.
+Print Assumptions C19_unrelated_modules.
+
+Theorem C19_unrelated_modules_externs : forall ptr mods1 extra st1 st2 o1 o2 t1 t2,
+  input_state ptr mods1 = Ok st1 -> input_state ptr (mods1 ++ extra) = Ok st2 ->
+  collision_free (st_reg st1) -> collision_free (st_reg st2) ->
+  clean_stateb st1 = true -> clean_stateb st2 = true ->
+  no_capture st1 st2 extra = true ->
+  (forall l, Permutation (o1 l) l) -> (forall l, Permutation (o2 l) l) ->
+  pyxis_resolve o1 ptr mods1 = BOk t1 -> pyxis_resolve o2 ptr (mods1 ++ extra) = BOk t2 ->
+  forall k m, alookup k (st_modules st1) = Some m ->
+  exists m1 m2, alookup k (st_modules t1) = Some m1 /\ alookup k (st_modules t2) = Some m2 /\
+                m_extern_values m1 = m_extern_values m2.
+Proof. exact pyxis_resolve_unrelated_externs. Qed.
+Print Assumptions C19_unrelated_modules_externs.
+
+(** non-vacuity: module [a] {A{x:u32,b:B}, B}, extra module [z] that also defines a [B]: [no_capture]
+    holds, both builds are accepted, the theorem applies; and a pair where [no_capture] is false and
+    the resolved value indeed differs *)
+Example C19_unrelated_example :
+  (exists st1 st2,
+    input_state 4 unrel_mods1 = Ok st1 /\ input_state 4 (unrel_mods1 ++ unrel_extra) = Ok st2 /\
+    collision_freeb (st_reg st1) = true /\ collision_freeb (st_reg st2) = true /\
+    clean_stateb st1 = true /\ clean_stateb st2 = true /\
+    no_capture st1 st2 unrel_extra = true) /\
+  ((exists t1, pyxis_resolve (hook_schedule []) 4 unrel_mods1 = BOk t1) /\
+   (exists t2, pyxis_resolve (hook_schedule []) 4 (unrel_mods1 ++ unrel_extra) = BOk t2)) /\
+  (exists st1 st2,
+    input_state 4 capt_mods1 = Ok st1 /\ input_state 4 (capt_mods1 ++ capt_extra) = Ok st2 /\
+    no_capture st1 st2 capt_extra = false).
+Proof.
+  split; [|split].
+  - destruct unrelated_no_capture as (st1 & st2 & H1 & H2 & C1 & C2 & K1 & K2 & _ & _ & Hnc).
+    exists st1, st2. repeat split; assumption.
+  - exact unrelated_accepted.
+  - destruct capture_detected as (st1 & st2 & H1 & H2 & Hnc & _). exists st1, st2. repeat split; assumption.
+Qed.
